@@ -204,4 +204,16 @@ CLAIMED["C11"] = {
     "technique": "Coq proof over a hand state-machine model + module-graph correspondence against real interpreters",
 }
 
+CLAIMED["C09"] = {
+    "text": ("Theorems in coq/Props/C09.v over a table regenerated from functions.py / values.py / interpreter.py on every run: (finite, over the generated table) no built-in class "
+             "that calls a file, directory, process or script facility of the host is flagged secure; (unbounded) under secure mode no sequence of native bindings with any alias, "
+             "copies, shadowings of the flag and scope exits makes an insecure built-in reachable, and the flag stays on. The translator fails closed unless bind_native_fun, add, "
+             "the `run` registration and the single write of the flag have exactly the modelled shape. That no other route exists (modules written in the language, objects, "
+             "closures, the 27 syntactic ways of binding the flag's name) is decided by an audited run of secure interpreters on both bases over the property's quantifier "
+             "(Python audit events, reachable function values, canary directory, base flag) - C09_runtime_partial."),
+    "note": ("Coq kernel + vm_compute; tools/translate/secure_gen.py (fail-closed AST reading; its list of dangerous host facilities is part of the trusted base); Python audit "
+             "events as the witness of host access in the run; hand model Model/Secure.v of the binder; no axioms."),
+    "technique": "Coq proof over a table regenerated from the source + audited enumeration on secure interpreters",
+}
+
 NOT_APPLICABLE = {}
